@@ -5,7 +5,7 @@ import numpy as np
 
 ID = "C10"
 PROPS_FILE = "theories/Props/C10.v"
-EXTRACT = ("theories/Extract/XC10.v", "c10", ["entry_emd", "entry_emdc", "entry_cert", "entry_partial", "entry_brute"])
+EXTRACT = ("theories/Extract/XC10.v", "c10", ["entry_emd", "entry_emdc", "entry_emdl", "entry_cert", "entry_partial", "entry_brute"])
 PYX = {"_fastemd.pyx": ["emd_hat_int32"]}
 RULE = ("one case = one instance (p, q, c, penalty|None) plus an encoding; the implementation is called through "
         "centrosome.fastemd for all variants: flow type NO_FLOW / WITHOUT_TRANSHIPMENT_FLOW / WITHOUT_EXTRA_MASS_FLOW x gd_metric "
@@ -27,9 +27,7 @@ TRUSTED = ["modelled at algorithm level, not verified line by line: min_cost_flo
            "the Python Bellman-Ford that proposes the dual point (alpha, beta, gamma) is untrusted: the extracted, proved "
            "checker emd_cert_ok verifies it",
            "NumPy int32 conversion of the arguments in the wrapper (np.ascontiguousarray)"]
-ASSUMPTIONS = ["length-1 histograms are not passed as strided int32 views (candidate finding C10-cand-1: out-of-bounds read in "
-               "np1D_to_vector; excluded from the generator and counted)",
-               "no int32 overflow: sum(P)*max(C) + |sum P - sum Q|*penalty < 2^31 (generator bound, stated)",
+ASSUMPTIONS = ["no int32 overflow: sum(P)*max(C) + |sum P - sum Q|*penalty < 2^31 (generator bound, stated)",
                "histograms are non-empty (len 0 makes the wrapper read vf[0] of an empty vector: outside the property's domain)",
                "explicit penalties are >= 0 (the value -1 is the C++ sentinel for 'default')",
                "gd_metric=True is only claimed for ground distances that are restrictions of a metric with zero diagonal"]
@@ -190,12 +188,6 @@ def _encode(rng, case):
     case["enc"] = {"p": str(rng.choice(pk)), "q": str(rng.choice(qk)), "c": str(rng.choice(ck)),
                    "lay": str(rng.choice(LAYOUTS)), "pstr": bool(rng.rand() < 0.3), "qstr": bool(rng.rand() < 0.3),
                    "penk": str(rng.choice(["int", "np32", "np64", "float"])), "pos": bool(rng.rand() < 0.3)}
-    # candidate finding C10-cand-1 (findings/C10.json): a length-1 int32 histogram that is a strided view makes the real
-    # wrapper read out of bounds (segfault).  Such calls are not generated; the exclusion is counted.
-    for k, sk, v in (("p", "pstr", case["p"]), ("q", "qstr", case["q"])):
-        if len(v) == 1 and case["enc"][sk] and case["enc"][k] == "int32":
-            case["enc"][sk] = False
-            case["excluded"] = case.get("excluded", 0) + 1
     return case
 
 
@@ -292,12 +284,30 @@ def generate(ctx):
         cases.append(_shape_extremes(rng, ctx.n(9, 20)))
     for _ in range(ctx.n(200, 2000)):
         cases.append(_near_bound(rng))
+    # length-1 histograms and 1x1 / 1xN / Nx1 cost matrices handed over as strided views in every dtype (the class in
+    # which np1D_to_vector used to read out of bounds: finding F16, repaired in /repo)
+    one = []
+    for kp in VEC_KINDS:
+        for kc in MAT_KINDS:
+            n, m = [(1, 1), (1, int(rng.randint(2, 6))), (int(rng.randint(2, 6)), 1)][int(rng.randint(3))]
+            P = [int(x) for x in rng.randint(0, 100, n)]; Q = [int(x) for x in rng.randint(0, 100, m)]
+            C = [[int(x) for x in r] for r in rng.randint(0, 100, (n, m))]
+            c = {"p": P, "q": Q, "c": C, "pen": None if rng.rand() < 0.5 else int(rng.randint(0, 120)), "metric": False,
+                 "kind": "one-strided", "tiny": False,
+                 "enc": {"p": kp, "q": str(rng.choice(VEC_KINDS)), "c": kc, "lay": str(rng.choice(["strided", "neg", "T", "F"])),
+                         "pstr": True, "qstr": True, "penk": "int", "pos": False}}
+            one.append(c)
+    one.append({"p": [7], "q": [7], "c": [[3]], "pen": None, "metric": False, "kind": "one-strided", "tiny": True,
+                "enc": {"p": "int32", "q": "int32", "c": "int32", "lay": "C", "pstr": True, "qstr": False, "penk": "int", "pos": False}})
+    one.append({"p": [7], "q": [7], "c": [[3]], "pen": None, "metric": False, "kind": "one-strided", "tiny": True,
+                "enc": {"p": "int32", "q": "int32", "c": "int32", "lay": "strided", "pstr": False, "qstr": True, "penk": "int", "pos": False}})
     # every generated case (not the corpus / fixed ones, which keep the plain int32 C-contiguous call) is handed over in
     # a randomly drawn dtype / layout / calling convention
     k0 = len(_corpus()) + len(_fixed())
     for c in cases[k0:]:
         if rng.rand() < 0.7:
             _encode(rng, c)
+    cases.extend(one)
     for c in cases:
         ctx.count("kind:" + c.get("kind", "?"))
         ctx.count("shape:%s" % ("equal" if len(c["p"]) == len(c["q"]) else "unequal"))
@@ -308,8 +318,6 @@ def generate(ctx):
             ctx.count("mass:one side all zero")
         if c.get("metric"):
             ctx.count("gd_metric variants")
-        if c.get("excluded"):
-            ctx.count("excluded:length-1 strided int32 view (candidate finding C10-cand-1)", c.pop("excluded"))
         e = c.get("enc")
         if e:
             ctx.count("dtype p:" + e["p"]); ctx.count("dtype q:" + e["q"]); ctx.count("dtype c:" + e["c"])
@@ -405,13 +413,18 @@ def _run_models(ctx, cases):
     res = [[] for _ in cases]
     for k, r in zip(where, ctx.run_model("entry_emdc", args)):
         res[k].append(r)
+    ll = [[] for _ in cases]
+    for k, r in zip(where, ctx.run_model("entry_emdl", args)):
+        ll[k].append(r)
+    _run_models.ll = ll
     return res
 
 
 def model(ctx, cases, outs):
     """Per case: the certified model's (dist, F) for every variant.  entry_emdc only answers when its own full flow
     passed emd_cert_ok inside the model (theorem C10_model_emd_correct), so no separate check of the model's flow."""
-    return [{"r": m, "cert": True} for m in _run_models(ctx, cases)]
+    ms = _run_models(ctx, cases)
+    return [{"r": m, "cert": True, "ll": l} for m, l in zip(ms, _run_models.ll)]
 
 
 def _shape_ok(c, F):
@@ -430,8 +443,11 @@ def compare(case, out, mo):
             return "certified model gave no answer (out of fuel or its own certificate failed) on variant gd=%d flow=%d: %s" % (g, f, str(r)[:100])
         if r[0] != o[2]:
             return "distance differs on variant gd_metric=%d flow_type=%d: impl %d model %d" % (g, f, o[2], r[0])
-    if not mo["cert"]:
-        return "the MODEL's own full flow is rejected by emd_cert_ok (model defect)"
+    # line-level model of min_cost_flow.hpp: same tie-breaking as the code, so the FLOWS must be identical
+    for (g, f), o, r in zip(vs, out["v"], mo["ll"]):
+        exp = [o[2], o[3] if f else []]
+        if r != exp:
+            return "line-level model differs on variant gd_metric=%d flow_type=%d: impl %s model %s" % (g, f, str(exp)[:160], str(r)[:160])
     return None
 
 
